@@ -281,7 +281,13 @@ func (s *JavaFullListener) EnterAnnotation(ctx *parser.AnnotationContext) {
 	}
 }
 
+func initMethodScope() {
+	localVars = make(map[string]string)
+	formalParameters = make(map[string]string)
+}
+
 func (s *JavaFullListener) EnterConstructorDeclaration(ctx *parser.ConstructorDeclarationContext) {
+	initMethodScope()
 	name := ctx.Identifier().GetText()
 	position := BuildPosition(ctx.BaseParserRuleContext, name)
 
@@ -309,6 +315,7 @@ func (s *JavaFullListener) ExitConstructorDeclaration(ctx *parser.ConstructorDec
 }
 
 func (s *JavaFullListener) EnterMethodDeclaration(ctx *parser.MethodDeclarationContext) {
+	initMethodScope()
 	name := ""
 
 	if ctx.Identifier() != nil {
